@@ -41,6 +41,7 @@ def cases(draw, name, tier):
     if name != "iter_sentinel":
         for s in case["srcs"]:
             s["fl"] = draw(st.sampled_from(["agen", "aclass", "iter", "seq"]))
+            s["cret"] = draw(st.sampled_from([None, None, True]))
     else:
         case["srcs"][0]["fl"] = draw(st.sampled_from(["def", "async", "partial", "obj"]))
     if name == "chain_from_iterable":
